@@ -26,7 +26,7 @@ PlanCases(T) ==
            k == IF Sample < Cardinality(rest) THEN Sample ELSE Cardinality(rest)
        IN thin \cup (IF k = 0 THEN {} ELSE RandomSubset(k, rest))
 
-CaseSeq(T) == SetToSeq({[kt |-> T, p |-> c, ok |-> ParamsOK(T, c), rep |-> Representable(T, c) /\ TemplateRepresentable(T, c)] : c \in PlanCases(T)})
+CaseSeq(T) == SetToSeq({[kt |-> T, p |-> c, ok |-> ParamsOK(T, c), rep |-> Representable(T, c), trep |-> TemplateRepresentable(T, c)] : c \in PlanCases(T)})
 TypeSeq == SetToSeq(Types)
 All == FlattenSeq([i \in 1..Len(TypeSeq) |-> CaseSeq(TypeSeq[i])])
 
